@@ -59,7 +59,7 @@ impl Check for C01 {
         "C01"
     }
     fn rule(&self) -> String {
-        "2-3 participants (own handles = separate processes, or clones of one handle) each run 1-4 operations from {set, put, set_temp_file, put_temp_file, ensure, get_or_update x {Accept, Promote, Replace}, get, touch} over 1-3 keys on the same directories: plain, sharded, or stacked over either with an optional read-only level that another participant writes into through its own raw handle (so promotion races with the upstream writer); capacities {0,1,2,huge} with maintenance firing always/sometimes/never; multi-chunk values and short reads/writes so that populate/copy/read take several calls; every filesystem call is a scheduling point decided by the seeded scheduler (stay-probabilities 95/85/60/30 %, optional hold-one-participant-until-the-others-finish). Oracle: every handle returned by a lookup, read to the end by the participant, is exactly one complete value supplied for that key (self-describing values); and at every step no key-named file is created in place, empty, partial or foreign (I-content on every rename/link/create). Non-trivial = a lookup overlapped a publication of the same key by another participant; distinct = hash of (configuration, sequence of (participant, call kind) on the shared directories)".to_string()
+        "2-3 participants (own handles = separate processes, or clones of one handle) each run 1-4 operations from {set, put, set_temp_file, put_temp_file, ensure, get_or_update x {Accept, Promote, Replace}, get, touch} over 1-3 keys on the same directories: plain, sharded, or stacked over either with an optional read-only level that another participant writes into through its own raw handle (so promotion races with the upstream writer); capacities {0,1,2,huge} with maintenance firing always/sometimes/never; multi-chunk values and short reads/writes so that populate/copy/read take several calls; in a third of the runs every library call additionally fails with probability 1-5 % with an errno plausible for its kind (operations may then fail, but may never return or publish wrong data); every filesystem call is a scheduling point decided by the seeded scheduler (stay-probabilities 95/85/60/30 %, optional hold-one-participant-until-the-others-finish). Oracle: every handle returned by a lookup, read to the end by the participant, is exactly one complete value supplied for that key (self-describing values); and at every step no key-named file is created in place, empty, partial or foreign (I-content on every rename/link/create). Non-trivial = a lookup overlapped a publication of the same key by another participant; distinct = hash of (configuration, sequence of (participant, call kind) on the shared directories)".to_string()
     }
     fn runs(&self, tier: Tier) -> u64 {
         match tier {
@@ -84,6 +84,7 @@ impl Check for C01 {
             missing_dirs: true,
             preexisting: true,
             clock_small: true,
+            sampled_faults: true,
         };
         let run = run_conc(tape, &cfg, ctx.detail);
         let mut out = base_out(&run);
@@ -160,6 +161,7 @@ impl Check for C05 {
             missing_dirs: true,
             preexisting: true,
             clock_small: true,
+            sampled_faults: false,
         };
         let run = run_conc(tape, &cfg, ctx.detail);
         let mut out = base_out(&run);
@@ -227,7 +229,7 @@ impl Check for C06 {
         "C06"
     }
     fn rule(&self) -> String {
-        "the C01/C05 generator (own and shared handles, capacities 0..huge, plain/sharded/stacked) is run to a drawn prefix length (1-120 filesystem steps); from that state one participant is scheduled ALONE until its current operation returns while every other participant stays frozen forever at the call it had announced (variant: the others are killed). Oracle: the survivor's operation returns Ok with valid content within a bound on its own filesystem steps (200 + 6 x directory entries + 12 x value chunks), the run is neither blocked (watchdog: no progress outside a filesystem call for 10 s) nor a runaway (60 000 steps), and no lock primitive (flock/lockf/fcntl/File::lock*) is ever called. Non-trivial = at least one peer was frozen in the middle of an operation; distinct = (survivor's operation, the frozen peers' pending call kinds, configuration)".to_string()
+        "the C01/C05 generator (own and shared handles, capacities 0..huge, plain/sharded/stacked) is run to a drawn prefix length (1-120 filesystem steps); from that state one participant is scheduled ALONE until its current operation returns while every other participant stays frozen forever at the call it had announced (variant: the others are killed). Oracle: the survivor's operation returns Ok with valid content within a bound on its own filesystem steps (500 + 40 x directory entries + 40 x value chunks: generous constants, the statement fixes only the shape), the run is neither blocked (watchdog: no progress outside a filesystem call for 10 s) nor a runaway (60 000 steps), and no lock primitive (flock/lockf/fcntl/File::lock*) is ever called. Non-trivial = at least one peer was frozen in the middle of an operation; distinct = (survivor's operation, the frozen peers' pending call kinds, configuration)".to_string()
     }
     fn runs(&self, tier: Tier) -> u64 {
         match tier {
@@ -253,6 +255,7 @@ impl Check for C06 {
             missing_dirs: true,
             preexisting: true,
             clock_small: true,
+            sampled_faults: false,
         };
         let run = run_conc(tape, &cfg, ctx.detail);
         let mut out = base_out(&run);
@@ -281,7 +284,9 @@ impl Check for C06 {
             let entries: usize = run.w.with_fs(|fs| run.w.dirs.iter().map(|d| fs.tree(&d.path).len()).sum());
             let max_len = run.results.iter().filter_map(|r| match &r.op { Op::Set { plen, .. } | Op::Put { plen, .. } | Op::SetTemp { plen, .. } | Op::PutTemp { plen, .. } | Op::Ensure { plen, .. } | Op::GetOrUpdate { plen, .. } => Some(*plen), _ => None }).max().unwrap_or(0);
             let chunks = max_len / run.w.chunk.min(8192) + 2;
-            let bound = 200 + 6 * entries as u64 + 12 * chunks as u64 * 3;
+            // generous constants: the statement fixes the shape (constant, or linear
+            // in the directory entries plus the value's chunks), not the factors
+            let bound = 500 + 40 * entries as u64 + 40 * chunks as u64;
             for r in run.results.iter().filter(|r| r.part == surv as i32 && r.ret > at) {
                 if v.is_some() {
                     break;
@@ -461,6 +466,7 @@ impl Check for C04 {
             missing_dirs: true,
             preexisting: true,
             clock_small: true,
+            sampled_faults: false,
         };
         // C04 is about the plain cache: force plain writer and no reader by
         // re-drawing until the configuration qualifies is not replay-friendly;
